@@ -1,1 +1,7 @@
 //! Hooks for property C42.
+//!
+//! The hook itself is `crate::market_graph::verif_c42` (file
+//! `crates/sdk/src/market_graph/verif_c42.rs`): it adds
+//! `MarketGraph::verif_from_edge_costs` and `BestSwapPaths::verif_distance` as inherent
+//! methods. It has to be a child module of `market_graph` because the graph, the token map and
+//! the distance vector are private to that module; nothing needs re-exporting from here.
